@@ -82,6 +82,9 @@ func compareStep(r ref.StepResult, stride *core.Stride, err error, pending inter
 	case ref.Unspecified:
 		return "", ""
 	case ref.Error:
+		if err != nil && r.Consumed && pending != nil && stride != nil && stride.Consumed == nil {
+			return "consumed:on-error", fmt.Sprintf("the step failed (%s) at a message-branching node, and reports the pending message as not consumed", r.Class)
+		}
 		if err == nil {
 			to := "nil"
 			if stride != nil && stride.To != nil {
@@ -128,7 +131,7 @@ func compareStep(r ref.StepResult, stride *core.Stride, err error, pending inter
 func runC04(c *sim.Ctx, t *testing.T) {
 	sim.Install(c)
 	defer sim.Uninstall()
-	cfg := genCfg{native: true, failOps: true, nullRet: true, permanents: true, badBranch: true, unknownNode: true, guards: true, guardEmits: true, loops: true, maxNodes: 5}
+	cfg := genCfg{native: true, failOps: true, nullRet: true, permanents: true, badBranch: true, unknownNode: true, guards: true, guardEmits: true, loops: true, maxNodes: 5, multiCand: true}
 	gs := genSpec(c, cfg)
 	spec, err := compile(gs)
 	if err != nil {
